@@ -242,51 +242,18 @@ theorem C04_gen_all_exceptions : ∀ p ∈ allExceptions, p.2 ∈ closedExcQuals
 /-- **Obligation** (`C04_gen_struct`): struct.error is an exception class, under that name. -/
 theorem C04_gen_struct : structErrorIsException = true ∧ structErrorQual = cs "struct.error" := by decide
 
-/-- **Obligation on the extracted decision list** (`C04_gen_decision_list`): the tests, lookups and calls of
-    dict_to_class, make_exception, SerpentSerializer.dict_to_class and ext_hook, in source order, are exactly the ones
-    the model follows (same constants, same order). -/
-theorem C04_gen_decision_list :
-    dictToClassTests =
-      ["data.get('__class__', '<unknown>')", "isinstance(classname, bytes)", "classname.decode('utf-8')",
-       "classname in cls.__custom_dict_to_class_registry", "'__' in classname",
-       "classname == 'Pyro5.core.URI'", "data['state']", "classname == 'Pyro5.client.Proxy'", "data['state']",
-       "classname == 'Pyro5.server.Daemon'", "data['state']", "classname.startswith('Pyro5.util.')",
-       "classname == 'Pyro5.util.SerpentSerializer'", "classname == 'Pyro5.util.MarshalSerializer'",
-       "classname == 'Pyro5.util.JsonSerializer'", "classname == 'Pyro5.util.MsgpackSerializer'",
-       "classname.startswith('Pyro5.errors.')", "getattr(errors, classname.split('.', 2)[2])",
-       "classname.split('.', 2)[2]", "classname.split('.', 2)", "issubclass(errortype, errors.PyroError)",
-       "classname == 'struct.error'", "classname == 'Pyro5.core._ExceptionWrapper'", "data['exception']",
-       "isinstance(ex, dict)", "'__class__' in ex", "data.get('__exception__', False)",
-       "classname in all_exceptions", "classname.split('.', 1)", "namespace in ('builtins', 'exceptions')",
-       "getattr(builtins, short_classname)", "issubclass(exceptiontype, BaseException)", "namespace == 'sqlite3'",
-       "short_classname.endswith('Error')", "getattr(sqlite3, short_classname)",
-       "issubclass(exceptiontype, BaseException)"]
-    ∧ makeExceptionTests =
-      ["data['args']", "'attributes' in data", "data['attributes'].items()", "data['attributes']",
-       "setattr(ex, attr, value)"]
-    ∧ serpentDictToClassTests =
-      ["data.get('__class__') == 'float'", "data.get('__class__')", "float(data['value'])", "data['value']"]
-    ∧ extHookTests =
-      ["code == 48", "code == 49", "code == 50", "struct.unpack('d', data)[0]", "code == 51",
-       "struct.unpack('l', data)[0]"] := by decide
+/-- **Obligation on the extracted probe table** (`C04_gen_probes`): on every one of the fixed probe inputs — one
+    well-formed class dict per recognised tag, the refusing branches, every member missing or ill-typed, registry,
+    wrappers, all container kinds, lists beyond 1024 items, the call shapes of the four serializers, msgpack extension
+    values on both paths, class dicts nested in class dicts (top-down decoding) — the model computes exactly the outcome
+    that the REAL `loads` / `loadsCall` produced at extraction time (canonical rendering of the value or error class;
+    a recorded audit event never matches).  This replaces reading the if/elif chain: a refactoring that keeps the
+    behaviour keeps the table, a change of behaviour on any probe breaks this theorem. -/
+theorem C04_gen_probes : probeFailures = [] ∧ 200 ≤ probes.length := by decide +kernel
 
-/-- **Obligation** (`C04_gen_recreate`): recreate_classes dispatches on exactly set, list, tuple, dict (in this order)
-    and tests `"__class__" in literal`; each `loads` calls it once, each `loadsCall` twice (vargs, kwargs). -/
-theorem C04_gen_recreate :
-    recreateTypes = ["set", "list", "tuple", "dict"]
-    ∧ recreateTests = ["t is set", "t is list", "t is tuple", "t is dict", "'__class__' in literal", "literal.items()"]
-    ∧ recreateCalls = [("SerpentSerializer.loads", 1), ("SerpentSerializer.loadsCall", 2), ("MarshalSerializer.loads", 1),
-        ("MarshalSerializer.loadsCall", 2), ("JsonSerializer.loads", 1), ("JsonSerializer.loadsCall", 2),
-        ("MsgpackSerializer.loads", 1), ("MsgpackSerializer.loadsCall", 2)] := by decide
-
-/-- **Obligation** (`C04_gen_msgpack_topdown`): MsgpackSerializer decodes top-down like the other serializers — its
-    `msgpack.unpackb` calls pass no `object_hook` (a bottom-up hook hands already re-created instances, e.g. a Proxy,
-    to the code that iterates `args` / `attributes` / `state`: see notes/C04.md, finding F-C04-1), `loads` passes
-    `ext_hook`, `loadsCall` passes it or not, and no `object_hook` method is left. -/
-theorem C04_gen_msgpack_topdown :
-    msgpackLoadsKw = ["ext_hook=self.ext_hook", "raw=False"]
-    ∧ (msgpackLoadsCallKw = ["ext_hook=self.ext_hook", "raw=False"] ∨ msgpackLoadsCallKw = ["raw=False"])
-    ∧ msgpackHookMethods = ["ext_hook"] := by decide
+/-- **Obligation** (`C04_gen_ext_codes`): the extension codes the real `ext_hook` accepts (all 128 codes probed) are
+    the four the model converts; and the model's `loadsCall` uses the probed "loadsCall applies ext_hook" flag. -/
+theorem C04_gen_ext_codes : extHookAccepted = extCodes := by decide
 
 /-! ### non-vacuity: concrete payloads meet the hypotheses and exercise the accepting and refusing branches -/
 
